@@ -10,6 +10,7 @@ import (
 	"go/token"
 	"go/types"
 	"math"
+	"net"
 	"strings"
 
 	"verif/engine/smt"
@@ -166,6 +167,43 @@ func init() {
 		"strconv.Atoi":       tagParse(0),
 		"strconv.ParseInt":   tagParse(1),
 		"strconv.ParseUint":  tagParse(2),
+
+		// ---- net: address syntax helpers, natively on concrete strings ----
+		"net.ParseIP": ext1(func(fr *frame, a []value) value {
+			s, ok := a[0].(string)
+			if !ok {
+				unsupported("net.ParseIP of a symbolic string")
+			}
+			ip := net.ParseIP(s)
+			if ip == nil {
+				return []value(nil)
+			}
+			out := make([]value, len(ip))
+			for k, b := range ip {
+				out[k] = b
+			}
+			return out
+		}),
+		"(net.IP).To4": ext1(func(fr *frame, a []value) value {
+			in := a[0].([]value)
+			ip := make(net.IP, len(in))
+			for k, b := range in {
+				cb, ok := b.(uint8)
+				if !ok {
+					unsupported("net.IP.To4 of symbolic bytes")
+				}
+				ip[k] = cb
+			}
+			r := ip.To4()
+			if r == nil {
+				return []value(nil)
+			}
+			out := make([]value, len(r))
+			for k, b := range r {
+				out[k] = b
+			}
+			return out
+		}),
 
 		// ---- errors ----
 		"errors.Is": ext1(extErrorsIs),
